@@ -44,13 +44,15 @@ def Series(params: SeriesParams) -> h.Module:
     # Initialize our stack-module
     m = h.Module()
 
-    # Copy the unit-cell ports
-    for p in params.unit.ports.values():
+    # Copy the unit-cell ports, of all types: Signals and Bundles
+    from .instantiable import io
+
+    for p in io(params.unit).values():
         m.add(deepcopy(p))
 
     # Divy up the ports by series vs parallel connections
     series_conns = _seriesconns(m, params.conns)
-    par_ports = [port for port in m.ports.values() if port not in series_conns]
+    par_ports = [port for port in io(m).values() if port not in series_conns]
     unit_conns = {port.name: port for port in par_ports}
 
     # Create the internal series-connected signals, and concatenate them with the series ports
